@@ -258,11 +258,22 @@ func c02Run(r *Run) {
 			return fresh
 		}
 		tracked := map[types.Object]bool{}
+		// classification results: `kind, ctl := classify(c)` — testing kind is how ctl is looked at
+		sibling := map[types.Object]types.Object{}
 		ast.Inspect(fd.Body, func(n ast.Node) bool {
 			if as, ok := n.(*ast.AssignStmt); ok && len(as.Rhs) == 1 {
 				if c, ok := ast.Unparen(as.Rhs[0]).(*ast.CallExpr); ok && isSource(c) {
 					if o := objOf(as.Lhs[len(as.Lhs)-1]); o != nil {
 						tracked[o] = true
+						if len(as.Lhs) > 1 && !isChildEval(c) {
+							for _, l := range as.Lhs[:len(as.Lhs)-1] {
+								if so := objOf(l); so != nil {
+									if bt, ok := so.Type().Underlying().(*types.Basic); ok && bt.Info()&(types.IsInteger|types.IsBoolean|types.IsString) != 0 {
+										sibling[so] = o
+									}
+								}
+							}
+						}
 					}
 				}
 			}
@@ -325,6 +336,9 @@ func c02Run(r *Run) {
 			ast.Inspect(e, func(n ast.Node) bool {
 				if id, ok := n.(*ast.Ident); ok {
 					delete(s.unchecked, info.Uses[id])
+					if sib, ok := sibling[info.Uses[id]]; ok {
+						delete(s.unchecked, sib)
+					}
 				}
 				return true
 			})
@@ -396,6 +410,10 @@ func c02Run(r *Run) {
 				}
 			}
 			return s
+		}
+		h.CaseMatch = func(tag, val ast.Expr, truth bool, st State) State {
+			examine(st.(*c02State), tag)
+			return st
 		}
 		h.TypeCase = func(x ast.Expr, bind *ast.Ident, cc *ast.CaseClause, st State) State {
 			s := st.(*c02State)
